@@ -240,10 +240,10 @@ def check_pages(doc, p, control_doc=None, lower=False):
                         exposed[site] += 1
                         if [x for x in tds[idx].find_all(True) if x.name not in ("a", "span")]:
                             created[site] += 1
-                    if squash(got) != squash(exp[col]) or tds[idx].find_all(True):
+                    extra = [x for x in tds[idx].find_all(True) if x.name not in ("a", "span")]
+                    if squash(got) != squash(exp[col]) or extra:
                         problems.append(dict(page=rel, what="cell-text", site=site, column="namelist-" + col, name=name,
-                                             form=d.get("form"), expected=exp[col], got=got,
-                                             extra_tags=len(tds[idx].find_all(True))))
+                                             form=d.get("form"), expected=exp[col], got=got, extra_tags=len(extra)))
         # procedure headings: bind(...) and result(...)
         for pr in p["procs"]:
             for h in soup.find_all(["h2", "h3"]):
